@@ -2,7 +2,9 @@
      sdk/go/auth/salt.go                      SaltToken (after the F6a fix: "already salted" = 40 lowercase hex digits)
      sdk/go/auth/auth.go                      LoadTokensFromHTTPRequest (order in which tokens are found)
      lib/controller/federation/conn.go        saltedTokenProvider
-     lib/controller/federation.go             Handler.saltAuthToken (legacy path; still has F6b)
+     lib/controller/federation.go             Handler.saltAuthToken (legacy path; still has F6b),
+                                              Handler.remoteClusterRequest with proxy.Do (what is put on the wire)
+     lib/controller/federation/conn.go        Conn.ContainerRequestCreate (which runtime_token is forwarded)
      services/keepstore/proxy_remote.go       remoteProxy.remoteClient (token part)
    HMAC-SHA1 is a parameter [hm key msg] of the *_k definitions so that the case evaluator can share
    computed digests; the un-suffixed definitions use lib/Sha1.  Definitions only. *)
@@ -148,3 +150,78 @@ Definition carried (r : lreq) : list string :=
    values "api_token" (l_query r) ++
    values "api_token" (l_form r) ++
    match l_cookie r with Some t => [t] | None => [] end)%list.
+
+(* ---- Handler.remoteClusterRequest + proxy.Do (lib/controller/federation.go, proxy.go) ----
+   the request put on the wire for a configured remote: the outgoing URL takes path and query string of the
+   request saltAuthToken returned; proxy.Do copies that request's header (hop-by-hop headers dropped) and body *)
+Definition remote_request_k (hm : hmfun) (db : string -> db_result) (r : lreq) (remote : string) : lres :=
+  match legacy_k hm db r remote with
+  | LErr => LErr
+  | LFwd s => LFwd {| l_auth := l_auth s; l_query := l_query s; l_ctype := l_ctype s; l_form := l_form s; l_cookie := l_cookie s |}
+  end.
+Definition remote_request := remote_request_k hmac_sha1_hex.
+
+(* ---- federation.Conn.ContainerRequestCreate ---- *)
+(* chooseBackend: the cluster an id (cluster id or object uuid) names *)
+Definition cluster_of (id : string) : option string :=
+  if Nat.eqb (String.length id) 27 then Some (take 5 id)
+  else if Nat.eqb (String.length id) 5 then Some id else None.
+Definition is_remote (local : string) (remotes : list string) (id : string) : bool :=
+  match cluster_of id with
+  | Some c => negb (String.eqb c local) && existsb (String.eqb c) remotes
+  | None => false
+  end.
+
+(* the current token as local.APIClientAuthorizationCurrent reports it: uuid, api_token (secret), scopes *)
+Definition aca_rec := (string * string * list string)%type.
+Definition scope_all (scopes : list string) : bool :=
+  match scopes with s :: _ => String.eqb s "all" | [] => false end.
+
+(* the runtime_token attribute of the request that goes to the remote cluster *)
+Inductive crt :=
+| CrtGiven (t : string)      (* the caller's own runtime_token attribute, untouched *)
+| CrtMint (user : string)    (* a new time-limited token is created for this user (token issued by this cluster) *)
+| CrtCurrent (t : string)    (* the current token in v2 form (token issued by another cluster) *)
+| CrtErr.                    (* the call fails before anything is sent *)
+Definition crc_runtime_token (local : string) (rt : option string) (aca : option aca_rec) (user : option string) : crt :=
+  match rt with
+  | Some t => CrtGiven t
+  | None =>
+    match aca with
+    | None => CrtErr
+    | Some (uuid, api, scopes) =>
+      match user with
+      | None => CrtErr
+      | Some u =>
+        if negb (scope_all scopes) then CrtErr
+        else if has_prefix local uuid then CrtMint u
+        else CrtCurrent ("v2/" ++ uuid ++ "/" ++ api)
+      end
+    end
+  end.
+
+(* the whole call.  lookup: the provider's local lookup of legacy tokens; mint: outcome of creating a token
+   (None: it fails -- always the case when the local backend is not the database-backed one) *)
+Inductive crc_res :=
+| CrcLocal                               (* handled by the local backend *)
+| CrcErr                                 (* nothing is sent *)
+| CrcSent (auth rt : string).            (* Authorization header and runtime_token of the request sent to the remote *)
+Definition crc_k (hm : hmfun) (lookup : string -> aca_result) (mint : string -> option string)
+           (local : string) (remotes : list string) (target : string) (creds : list string)
+           (rt : option string) (aca : option aca_rec) (user : option string) : crc_res :=
+  if negb (is_remote local remotes target) then CrcLocal
+  else
+    let dest := match cluster_of target with Some c => c | None => "" end in
+    let send t :=
+        match provider_k hm lookup dest (Some creds) with
+        | None => CrcErr
+        | Some [] => CrcSent "Bearer -" t
+        | Some (a :: _) => CrcSent ("Bearer " ++ a) t
+        end in
+    match crc_runtime_token local rt aca user with
+    | CrtGiven t => send t
+    | CrtCurrent t => send t
+    | CrtMint u => match mint u with Some t => send t | None => CrcErr end
+    | CrtErr => CrcErr
+    end.
+Definition crc := crc_k hmac_sha1_hex.
